@@ -322,6 +322,9 @@ package main
 //@   ensures r-dest-host: msg.request == nil && len(smMsg) == len(old(smMsg)) + 1 ==> smHost[len(old(smHost))] == hopHost(asRef(msg.headers[firstIdx(msg.headers, "Via")].value, "*Via").params[0])
 //@   ensures r-dest-port: msg.request == nil && len(smMsg) == len(old(smMsg)) + 1 ==> smPort[len(old(smPort))] == hopPort(asRef(msg.headers[firstIdx(msg.headers, "Via")].value, "*Via").params[0])
 //@   ensures r-dest-transport: msg.request == nil && len(smMsg) == len(old(smMsg)) + 1 ==> smTransport[len(old(smTransport))] == asRef(msg.headers[firstIdx(msg.headers, "Via")].value, "*Via").params[0].Transport
+//@   ensures r-hop-computed-once: msg.request == nil ==> len(hopOk) == len(old(hopOk)) + 1
+//@   ensures r-sent-iff-hop-ok: msg.request == nil ==> ((len(smMsg) == len(old(smMsg)) + 1) == hopOk[len(old(hopOk))])
+//@   ensures r-sent-to-computed-hop: msg.request == nil && hopOk[len(old(hopOk))] ==> smHost[len(old(smHost))] == hopHostE[len(old(hopHostE))] && smPort[len(old(smPort))] == hopPortE[len(old(hopPortE))] && smTransport[len(old(smTransport))] == hopTransportE[len(old(hopTransportE))]
 //@   ensures r-hop-implies-sent: msg.request == nil && firstIdx(msg.headers, "Via") >= 0 && isType(msg.headers[firstIdx(msg.headers, "Via")].value, "*Via")
 //@        && len(asRef(msg.headers[firstIdx(msg.headers, "Via")].value, "*Via").params) >= 1 ==> len(smMsg) == len(old(smMsg)) + 1
 //@   ensures q-no-pop: msg.request != nil ==> popvias == old(popvias)
@@ -551,6 +554,10 @@ package main
 
 //@ func (*Proxy).getNextReponseHop
 //@   props C02 C07 C12
+//@   revent hopOk: err == nil
+//@   revent hopHostE: host
+//@   revent hopPortE: port
+//@   revent hopTransportE: transport
 //@   modifies Header.value
 //@   ensures none: firstIdx(msg.headers, "Via") < 0 ==> err != nil
 //@   ensures hop: err == nil ==> isType(msg.headers[firstIdx(msg.headers, "Via")].value, "*Via")
